@@ -30,6 +30,7 @@ RULE = ("random operation histories (length <= 12; all histories of length <= 3 
         "by a later observation; distinct = (underlying flavour, history)")
 ASSUMPTIONS = ["laziness of the tools themselves is C05's concern; here the stdlib twin predicts how many items a tool takes",
                "athrow is not part of the property's operation list and is not generated"]
+EXHAUSTIVE_SUBSPACES = 'all histories of length <= 3 (thorough: 4) over a 13-operation alphabet'
 EXHAUSTIVE = {"quick": False, "thorough": False}
 N_RANDOM = {"quick": 30000, "thorough": 1500000}
 FLAVS = ["async_gen", "async_class", "async_class_bare", "async_class_full", "async_class_asend"]
